@@ -25,7 +25,8 @@ ASSUMPTIONS = ["one case in four enters dimensionless size ratios below their de
                "unit strings '', None, 'none' count as dimensionless; 'degrees' as angle; type 'sld' as SLD",
                "rtol 1e-7 (conforming models agree to 1e-10..1e-15, offenders are off by 1e-2..0.9)"]
 REQUIRED_MONITORS = ["length_scaling_I", "length_scaling_Fq", "sld_scaling"]
-REQUIRED_BUCKETS = {"quick": ["pd:on", "pd:off", "mode>0", "dim:2d", "mesh>100:mode>0", "dist:lognormal", "dist:schulz", "dist:gaussian", "magnetic"]}
+REQUIRED_BUCKETS = {"quick": ["pd:on", "pd:off", "mode>0", "dim:2d", "mesh>100:mode>0", "dist:lognormal", "dist:schulz", "dist:gaussian", "magnetic", "dist:rectangle", "dist:uniform",
+                              "reparameterised:typed", "reparameterised:untyped"]}
 REQUIRED_BUCKETS["thorough"] = REQUIRED_BUCKETS["quick"]
 
 UNIT_EXP = {"Ang": 1, "Ang^2": 2, "Ang^3": 3, "1/Ang": -1, "1/Ang^2": -2, "1/Ang^3": -3, "Ang^-1": -1, "Ang^-2": -2}
@@ -59,7 +60,84 @@ def gen_cases(tier, seed):
     for m in models():
         for k in range(n):
             cases.append({"id": "%s/%03d" % (m, k), "model": m, "k": k, "seed": seed, "group": m})
+    for j in range(len(REPARAMS)):
+        for typed in (1, 0):
+            for k in range(2 if tier == "quick" else 20):
+                cases.append({"id": "reparam/%d-%s-%d" % (j, "typed" if typed else "untyped", k), "kind": "reparam", "j": j,
+                              "typed": typed, "k": k, "seed": seed, "model": "reparam", "group": "rp%d%d" % (j, typed)})
     return cases
+
+
+# shape models given other parameters (core.reparameterize): the new parameters carry their own units
+REPARAMS = [
+    ("sphere", [["size", "Ang^3", 4.2e5, [0, np.inf], "volume", "particle volume"]], "radius = cbrt(size/M_4PI_3)"),
+    ("ellipsoid", [["vol", "Ang^3", 6.7e5, [0, np.inf], "volume", "particle volume"],
+                   ["aspect", "", 2.0, [0.1, 10.0], "volume", "polar:equatorial"]],
+     "re = cbrt(vol/(M_4PI_3*aspect))\nradius_equatorial = re\nradius_polar = aspect*re"),
+    ("cylinder", [["area", "Ang^2", 1250.0, [0, np.inf], "volume", "cross section"]], "radius = sqrt(area/M_PI)"),
+    ("core_shell_sphere", [["outer", "Ang", 80.0, [0, np.inf], "volume", "outer radius"],
+                           ["frac", "", 0.7, [0.0, 1.0], "volume", "core fraction of the radius"]],
+     "radius = frac*outer\nthickness = (1.0 - frac)*outer"),
+    ("vesicle", [["inner_volume", "Ang^3", 1.1e5, [0, np.inf], "volume", "volume of the solvent core"]],
+     "radius = cbrt(inner_volume/M_4PI_3)"),
+]
+
+
+def run_reparam(case, rec):
+    from sasmodels import core as sascore, direct_model
+    base, new, text = REPARAMS[case["j"]]
+    typed = bool(case["typed"])
+    new = [n[:4] + [n[4] if typed else ""] + n[5:] for n in new]
+    rng = core.rng_for(case["seed"], PROP, "reparam", case["j"], case["typed"], case["k"])
+    i = sascore.reparameterize(sas.info(base), new, text, name="rtm13_%d_%d" % (case["j"], case["typed"]))
+    model = sas.build(i)
+    pars = {}
+    for p in i.parameters.call_parameters:
+        if p.type == "magnetic" or p.name in ("scale", "background") or p.type == "orientation":
+            continue
+        v = float(p.default)
+        if p.type == "sld":
+            v = float(rng.uniform(0.5, 6.0))
+        elif np.isfinite(v) and v != 0:
+            v = v*float(rng.uniform(0.7, 1.4))
+            v = min(max(v, p.limits[0]), p.limits[1])
+        pars[p.name] = v
+    pars["scale"], pars["background"] = float(rng.uniform(0.5, 2)), 0.0
+    pd_on = typed and case["k"] % 2 == 1
+    if pd_on:
+        for n in new:
+            pn = i.parameters[n[0]]
+            if pn.polydisperse and n[1] != "":
+                sas.add_pd(pars, pn, ["gaussian", "schulz", "rectangle"][int(rng.integers(3))], int(rng.integers(4, 13)),
+                           float(rng.uniform(0.05, 0.15)), 1.7)
+    rec.bucket("reparameterised:" + ("typed" if typed else "untyped"), "pd:on" if pd_on else "pd:off", "dim:1d")
+    lam, mu = float(rng.uniform(0.4, 2.5)), float(rng.uniform(0.3, 3.0))
+    size = max([abs(pars[p.name])**(1.0/UNIT_EXP[p.units]) for p in i.parameters.kernel_parameters
+                if p.units in ("Ang", "Ang^2", "Ang^3") and p.name in pars] + [1.0])
+    qs = [np.clip(np.exp(rng.uniform(math.log(0.2/size), math.log(6.0/size), 4)), 1e-7, 10.0)]
+    kf = lambda qq: model.make_kernel(qq)
+    modes = i.radius_effective_modes or []
+    ctx = {"base": base, "new_parameters": [[n[0], n[1], n[4]] for n in new], "translation": text, "pars": pars,
+           "lambda": lam, "mu": mu, "q": qs}
+    p1 = scaled(i, pars, lam, 1.0)
+    for m_ in range(0, len(modes) + 1):
+        I0, Fa = evaluate(i, kf, pars, qs, m_, "1d")
+        I1, Fb = evaluate(i, kf, p1, [a/lam for a in qs], m_, "1d")
+        sc = float(np.max(np.abs(I0)))
+        if m_ == 0:
+            ok = core.close(I1, lam**3*I0, 1e-7, 1e-9*lam**3*sc)
+            rec.check("length_scaling_I", ok, None if ok else dict(ctx, I=I0, I_scaled=I1, expected=lam**3*I0,
+                                                                  max_rel_err=core.maxrel(I1, lam**3*I0, 1e-12*sc)))
+            I2, _ = evaluate(i, kf, scaled(i, pars, 1.0, mu), qs, 0, "1d")
+            ok2 = core.close(I2, mu**2*I0, 1e-7, 1e-9*mu**2*sc)
+            rec.check("sld_scaling", ok2, None if ok2 else dict(ctx, I=I0, I_scaled=I2))
+        okF = abs(Fb[3] - lam**3*Fa[3]) <= 1e-7*abs(lam**3*Fa[3]) and abs(Fb[4] - Fa[4]) <= 1e-7*abs(Fa[4])
+        if m_:
+            okF = okF and abs(Fb[2] - lam*Fa[2]) <= 1e-7*abs(lam*Fa[2]) and Fa[2] > 0
+        rec.check("length_scaling_Fq", bool(okF),
+                  None if okF else dict(ctx, mode=m_, mode_name=modes[m_-1] if m_ else None, R=[Fa[2], Fb[2]],
+                                        V_shell=[Fa[3], Fb[3]], ratio=[Fa[4], Fb[4]]))
+    rec.set_shape(("reparam", case["j"], typed, pd_on, case["k"]), nontrivial=True)
 
 
 def scaled(i, pars, lam, mu, override=None):
@@ -92,6 +170,8 @@ def evaluate(i, kernel_for, pars, q, mode, dim):
 
 
 def run_case(case, rec):
+    if case.get("kind") == "reparam":
+        return run_reparam(case, rec)
     name = case["model"]
     i = sas.info(name)
     k = case["k"]
@@ -121,8 +201,8 @@ def run_case(case, rec):
                 # keep the window inside the limits for the scaled copy too
                 w = min(float(rng.uniform(0.05, 0.2)), 0.3*room/2.0)
                 if w > 0:
-                    dist = ["gaussian", "schulz", "lognormal"][int(rng.integers(3))]
-                    sas.add_pd(pars, p, dist, (11 if big else 4), w, 2.0)
+                    dist = ["gaussian", "schulz", "lognormal", "rectangle", "uniform"][int(rng.integers(5))]
+                    sas.add_pd(pars, p, dist, (11 if big else 4), w, 1.7 if dist == "rectangle" else 2.0)
                     rec.bucket("dist:" + dist)
     if big and len([kk for kk in pars if kk.endswith("_pd_n") and pars[kk] == 11]) >= 2:
         rec.bucket("mesh>100")
